@@ -65,6 +65,16 @@ def cta (lk1 lk2 : Lock) (chk : σ → Bool) (err : ρ) (act : σ → σ × ρ) 
 def fused (lk : Lock) (chk : σ → Bool) (err : ρ) (act : σ → σ × ρ) : Prog σ ρ :=
   atomic lk (fun s => if chk s then act s else (s, err))
 
+/-- the continuation chosen by the first section when it runs in state `s` -/
+def cont : Prog σ ρ → σ → Prog σ ρ
+  | .sec _ _ next, s => next s
+  | p, _ => p
+
+/-- the state change made by the first section when it runs in state `s` -/
+def effect : Prog σ ρ → σ → σ
+  | .sec _ upd _, s => upd s
+  | _, s => s
+
 end Prog
 
 /-- a queued operation: its name `op`, what is left of it, and how many sections already ran -/
@@ -154,6 +164,18 @@ def stable (K : CtaOps ι σ ρ) (c : Cfg ι σ ρ) : List Nat → Prop
   | [] => True
   | t :: r => K.stableStep c t ∧ stable K (step c t) r
 
+/-- the side condition checked for the threads in `us` only (decidable; see
+    `Proofs.Locks.stable_of_stableB`: sound when all other threads are idle) -/
+def stableStepB (K : CtaOps ι σ ρ) (c : Cfg ι σ ρ) (t : Nat) (us : List Nat) : Bool :=
+  us.all (fun u => u == t ||
+    match c.thr u with
+    | it :: _ => !(K.is it.op && decide (it.pc > 0) && K.chk it.op c.st) || K.chk it.op (step c t).st
+    | [] => true)
+
+def stableB (K : CtaOps ι σ ρ) (c : Cfg ι σ ρ) (us : List Nat) : List Nat → Bool
+  | [] => true
+  | t :: r => stableStepB K c t us && stableB K (step c t) us r
+
 end CtaOps
 
 /-! ## lock-level view: who holds and who waits (for deadlock freedom) -/
@@ -176,6 +198,21 @@ def LockState.chain (L : LockState) : List Nat → Prop
   | [] => True
   | [_] => True
   | a :: b :: r => L.waitsFor a b ∧ LockState.chain L (b :: r)
+
+/-- when no method nests lock acquisitions, a thread is idle, waits for one lock while holding
+    none, or holds exactly one lock -/
+inductive Phase where
+  | idle
+  | waiting (l : Nat)
+  | holding (l : Nat)
+
+def LockState.ofPhases (ph : Nat → Phase) : LockState where
+  holds := fun t => match ph t with
+    | .holding l => [l]
+    | _ => []
+  waits := fun t => match ph t with
+    | .waiting l => some l
+    | _ => none
 
 /-! ## the section structure of the storage methods -/
 
@@ -241,9 +278,9 @@ def methodOf : Op → Option Nat
   | .snapRelease _ _ => some 29
   | .snapList _ => some 30
   | .snapPrune _ => some 31
-  | .mlsWrite _ _ _ => some 100     -- any OpenMLS `StorageProvider` method (all have the same shape)
-  | .mlsRead _ _ => some 101
-  | .mlsDelete _ _ => some 102
+  | .mlsWrite _ _ _ => some 90      -- write_tree / tree / delete_tree stand for the OpenMLS
+  | .mlsRead _ _ => some 91         -- `StorageProvider` methods (all of which are one section,
+  | .mlsDelete _ _ => some 92       -- `Props.C19.provider_methods_single_section`)
   | .updLast _ _ _ _ => none
   | .dump => none
 
@@ -320,6 +357,43 @@ def sqlProg : Op → Prog Store String
 def lockProg : Backend → Op → Prog Store String
   | .mem => memProg
   | .sql => sqlProg
+
+/-- which operations are a single section on which backend (everything but the listed ones) -/
+def singleOp : Backend → Op → Bool
+  | .mem, .saveMessage _ | .mem, .snapCreate _ _ _ | .mem, .snapRollback _ _ | _, .updLast _ _ _ _ => false
+  | .sql, .messages _ _ _ _ | .sql, .lastMessage _ _ | .sql, .relays _ | .sql, .replaceRelays _ _
+  | .sql, .getSecret _ _ | .sql, .saveSecret _ _ _ => false
+  | _, _ => true
+
+/-! ## per-group projection (for the frame property) -/
+
+/-- everything the store holds for group `g` (its record, relays, exporter secrets, OpenMLS rows,
+    messages, snapshots) -/
+structure GroupView where
+  group : Option Group
+  relays : Option (List Nat)
+  secrets : List (Nat × Nat)
+  mls : List (Nat × Nat)
+  msgs : List Msg
+  snaps : List Snap
+
+def view (s : Store) (g : Nat) : GroupView :=
+  { group := findGroup s g, relays := alookup g s.relays, secrets := groupSecrets s g, mls := groupMls s g,
+    msgs := groupMsgs s g, snaps := s.snaps.filter (·.gid == g) }
+
+/-- the group a writing operation is addressed to (`snap_rollback` is left to C09, whose theorem is
+    exactly that a rollback changes one group only) -/
+def opGroup : Op → Option Nat
+  | .saveGroup g => some g.gid
+  | .saveMessage m => some m.gid
+  | .invalMsgs g _ => some g
+  | .replaceRelays g _ => some g
+  | .saveSecret g _ _ => some g
+  | .mlsWrite g _ _ => some g
+  | .mlsDelete g _ => some g
+  | .snapCreate g _ _ => some g
+  | .snapRelease g _ => some g
+  | _ => none
 
 /-- the sections `Generated.lockShape` lists for (backend, method) -/
 def shapeOf (b : Backend) (m : Nat) : Option (List Lock) :=
